@@ -296,3 +296,52 @@ Example C14_bep3_nonvacuous :
   class_of (Bep3.step bx_env bx_init (Create 7 1000 18446744073709551606 2 0 1 [(0%nat, 200)] true)) = RErr /\
   class_of (Bep3.step bx_env bx_init (Create 7 1000 18446744073709551605 2 0 1 [(0%nat, 200)] true)) = ROk.
 Proof. vm_compute. repeat split; reflexivity. Qed.
+
+(** * InitGenesis as the gate of a chain start (all three modules) *)
+From Kava Require Proofs.GenesisGateA.
+
+(* what GenesisState.Validate refuses is never imported: an InitGenesis that does not panic
+   was given a genesis state that passes validation (for EVERY genesis state, not only exports) *)
+Theorem C14_cdp_import_implies_valid :
+  forall e s0 g s' o, GenesisCdp.init_genesis e s0 g = Ok s' o -> GenesisCdp.validate_genesis g = true.
+Proof. exact GenesisGateA.cdp_import_implies_valid. Qed.
+Print Assumptions C14_cdp_import_implies_valid.
+
+Theorem C14_bep3_import_implies_valid :
+  forall e s0 g s' o, GenesisBep3.init_genesis e s0 g = Ok s' o -> GenesisBep3.validate_genesis g = true.
+Proof. exact GenesisGateA.bep3_import_implies_valid. Qed.
+Print Assumptions C14_bep3_import_implies_valid.
+
+(* x/auction: moreover the bank the import runs on holds, in the auction module account, exactly
+   the coins the genesis auctions account for, in every denom in circulation *)
+Theorem C14_auction_import_implies_valid_and_custody :
+  forall e denoms b g s' o, GenesisAuction.init_genesis e denoms b g = Ok s' o ->
+  GenesisAuction.validate_genesis e g = true /\
+  forall d, In d denoms -> b (Auction.amod e) d = Auction.held d (GenesisAuction.g_aucs g).
+Proof. exact GenesisGateA.auction_import_implies_valid_and_custody. Qed.
+Print Assumptions C14_auction_import_implies_valid_and_custody.
+
+(* any surplus or shortfall in one denom makes InitGenesis panic *)
+Theorem C14_auction_import_refuses_unaccounted_balance :
+  forall e denoms b g d k, In d denoms -> k <> 0 ->
+  b (Auction.amod e) d = Auction.held d (GenesisAuction.g_aucs g) + k ->
+  GenesisAuction.init_genesis e denoms b g = Panic.
+Proof. exact GenesisGateA.auction_import_refuses_unaccounted_balance. Qed.
+Print Assumptions C14_auction_import_refuses_unaccounted_balance.
+
+(* non-vacuity: the empty genesis over a module account holding one unit of denom 0 is refused,
+   over an empty module account it is imported; one open surplus auction (lot 5 of denom 1) is
+   imported over exactly 5 and refused over 6 and over 5 plus a unit of another denom *)
+Example C14_auction_custody_gate_nonvacuous :
+  let e := Auction.mkEnv 9 10 (fun _ => false) (fun _ => false) (fun _ => false) (fun _ => false) 100 10 10 0 0 0 in
+  let a := Auction.mkAuc 1 Auction.KSurplus 0%nat 1%nat 5 10%nat 2%nat 0 false 50 100 0%nat 0 0 [] [] in
+  let bk (x : Z) (y : Z) : Auction.bank := fun ad d => if Nat.eqb ad 9 then (if Nat.eqb d 1 then x else if Nat.eqb d 0 then y else 0) else 0 in
+  class_of (GenesisAuction.init_genesis e [0%nat; 1%nat] (bk 0 0) (GenesisAuction.mkGen 1 [])) = ROk /\
+  class_of (GenesisAuction.init_genesis e [0%nat; 1%nat] (bk 0 1) (GenesisAuction.mkGen 1 [])) = RPanic /\
+  class_of (GenesisAuction.init_genesis e [0%nat; 1%nat] (bk 5 0) (GenesisAuction.mkGen 2 [a])) = ROk /\
+  class_of (GenesisAuction.init_genesis e [0%nat; 1%nat] (bk 6 0) (GenesisAuction.mkGen 2 [a])) = RPanic /\
+  class_of (GenesisAuction.init_genesis e [0%nat; 1%nat] (bk 4 0) (GenesisAuction.mkGen 2 [a])) = RPanic /\
+  class_of (GenesisAuction.init_genesis e [0%nat; 1%nat] (bk 5 1) (GenesisAuction.mkGen 2 [a])) = RPanic /\
+  class_of (GenesisAuction.init_genesis e [0%nat; 1%nat]
+              (GenesisAuction.adj_bank (bk 5 0) 9 [(1%nat, 1)]) (GenesisAuction.mkGen 2 [a])) = RPanic.
+Proof. vm_compute. repeat split; reflexivity. Qed.
